@@ -4,17 +4,11 @@ three prefix codes, the command loop, the final padding — against `readMetaBlo
 The facts needed of each `BuildAndStoreHuffmanTree` call are the structure `CodeFacts`
 (discharged in `MetaBlockCode.lean` from C17).
 -/
-import BV.Lemmas.MetaBlockHisto
+import BV.Lemmas.MetaBlockCode
 
 namespace BV.MetaBlock
 open BV.Gen BV.Bits BV.Huffman BV.PrefixArith BV.Recoder BV.HeaderSpec
 open BV.Header (skipPad_pad)
-
-/-- what the round trip needs of one stored prefix code: the appended description is read back to a
-code that agrees with the writer's tables on every symbol the histogram counts -/
-def CodeFacts (hist : List Nat) (len A : Nat) (w w' : Writer) (depth' bits' : List Nat) : Prop :=
-  ∃ cb code, w' = w ++ cb ∧ (∀ rest, readCode A (cb ++ rest) = some (code, rest)) ∧
-    ∀ s, s < len → hist.getD s 0 ≠ 0 → SymIO depth' bits' code s
 
 /-- the reader on the 13 zero bits: one block type per category, NPOSTFIX = NDIRECT = 0, context
 mode 0, one literal tree, one distance tree -/
@@ -42,30 +36,28 @@ theorem mem_lt_of_inv (h : Histo) (n : Nat) (items : List Nat) (hi : HistoInv h 
 theorem jump_length (w : Writer) : (jumpToByteBoundary w).length = w.length + (8 - w.length % 8) % 8 := by
   simp [jumpToByteBoundary]
 
-/-- **assembly** for the trivial writer.  `hcode`: the three prefix codes round-trip (`CodeFacts`). -/
+theorem alphabet_facts (large : Bool) :
+    256 ≤ 2 ^ alphabetBits 256 ∧ 704 ≤ 2 ^ alphabetBits 704 ∧
+    distAlphabetSize large 0 0 ≤ 2 ^ alphabetBits (distAlphabetSize large 0 0) ∧
+    1 ≤ distAlphabetSize large 0 0 ∧ distAlphabetSize large 0 0 ≤ 140 := by
+  cases large <;> decide
+
+/-- **assembly** for the trivial writer: it does not panic, and what it appends is read back. -/
 theorem trivial_core (wo : WordOracle) (window : Nat) (large : Bool) (ring : Bytes) (start mask : Nat)
-    (mb : Bytes) (isLast : Bool) (cmds : List Cmd) (hist : Bytes) (dc : List Int) (w w' rest : List Bool)
+    (mb : Bytes) (isLast : Bool) (cmds : List Cmd) (hist : Bytes) (dc : List Int) (w : List Bool)
     (hR : RingHolds ring mask start mb) (h256 : ∀ b ∈ mb, b < 256)
     (h1 : 1 ≤ mb.length) (h2 : mb.length ≤ 2 ^ 24) (hst : start < two64)
+    (hIP : inputPairCheck ring start mb.length mask = .ok ())
     (hok : ∀ c ∈ cmds, cmdOK (distAlphabetSize large 0 0) 0 0 c = true)
-    (hlock : lockstep wo 0 0 window mb ⟨hist, dc, 0⟩ 0 cmds = true)
-    (hcode : ∀ (h : List Nat) (len A : Nat) (w0 w1 : Writer) (d b : List Nat),
-      (h.length = 256 ∧ len = 256 ∧ A = 256) ∨ (h.length = 704 ∧ len = 704 ∧ A = 704) ∨
-        (h.length = 544 ∧ len = 140 ∧ A = distAlphabetSize large 0 0) →
-      h.sum ≤ 2 ^ 24 + 1 → (∀ i, A ≤ i → h.getD i 0 = 0) →
-      buildAndStoreHuffmanTree h len A scratchTree (List.replicate len 0) (List.replicate len 0) w0 = .ok (d, b, w1) →
-      CodeFacts h len A w0 w1 d b)
-    (h : storeMetaBlockTrivial ring start mb.length mask isLast (distAlphabetSize large 0 0) cmds w = .ok w') :
-    ∃ bits fin, w' = w ++ bits ∧ decSteps wo 0 0 window mb ⟨hist, dc, 0⟩ cmds = some fin ∧
-      fin.cursor = mb.length ∧
-      readMetaBlockFull wo window large w.length ⟨hist, dc⟩ (bits ++ rest)
-        = some (⟨fin.out, fin.ring⟩, isLast, w'.length, rest) := by
+    (hlock : lockstep wo 0 0 window mb ⟨hist, dc, 0⟩ 0 cmds = true) :
+    ∃ bits fin, storeMetaBlockTrivial ring start mb.length mask isLast (distAlphabetSize large 0 0) cmds w
+        = .ok (w ++ bits) ∧
+      decSteps wo 0 0 window mb ⟨hist, dc, 0⟩ cmds = some fin ∧ fin.cursor = mb.length ∧
+      ∀ rest, readMetaBlockFull wo window large w.length ⟨hist, dc⟩ (bits ++ rest)
+        = some (⟨fin.out, fin.ring⟩, isLast, (w ++ bits).length, rest) := by
   have p24 : (2 : Nat) ^ 24 = 16777216 := by decide
-  have hA140 : distAlphabetSize large 0 0 ≤ 140 := by cases large <;> simp [distAlphabetSize]
-  unfold storeMetaBlockTrivial at h
-  rw [bind_eq_ok] at h
-  obtain ⟨_, _, h⟩ := h
-  rw [storeHeader_ok isLast mb.length w h1 h2, Out.bind_ok] at h
+  have p25 : (2 : Nat) ^ 24 + 1 ≤ 2 ^ 25 := by decide
+  obtain ⟨a1, a2, a3, a4, hA140⟩ := alphabet_facts large
   -- histograms
   have hrange := lockstep_inRange wo 0 0 window mb cmds _ _ hlock
   have hnum := lockstep_length wo 0 0 window mb cmds _ _ hlock
@@ -78,31 +70,15 @@ theorem trivial_core (wo : WordOracle) (window : Nat) (large : Bool) (ring : Byt
   obtain ⟨lit, cmd, dist, hb, il, ic, id⟩ := buildHistograms_inv ring mask start mb hR h256 cmds 0
     (Histo.zero 256) (Histo.zero 704) (Histo.zero 544) [] [] [] (histoInv_zero _) (histoInv_zero _) (histoInv_zero _)
     hrange hbounds (by unfold two32; simp; omega) (by unfold two32; simp; omega) (by unfold two32; simp; omega)
-  have hstart : BROTLI_NUM_LITERAL_SYMBOLS = 256 ∧ BROTLI_NUM_COMMAND_SYMBOLS = 704 ∧
-      BROTLI_NUM_HISTOGRAM_DISTANCE_SYMBOLS = 544 ∧ MAX_SIMPLE_DISTANCE_ALPHABET_SIZE = 140 := by decide
-  obtain ⟨c1, c2, c3, c4⟩ := hstart
-  rw [c1, c2, c3, c4] at h
   rw [posOf_zero start hst] at hb
-  rw [hb, Out.bind_ok] at h
-  simp only at h
-  rw [BV.Header.writeBits_ok 13 0 _ (by decide) (by decide), Out.bind_ok] at h
-  rw [bind_eq_ok] at h
-  obtain ⟨⟨litD, litB, w1⟩, hb1, h⟩ := h
-  simp only at h
-  rw [bind_eq_ok] at h
-  obtain ⟨⟨cmdD, cmdB, w2⟩, hb2, h⟩ := h
-  simp only at h
-  rw [bind_eq_ok] at h
-  obtain ⟨⟨distD, distB, w3⟩, hb3, h⟩ := h
-  simp only at h
   -- sums and supports of the three histograms
-  have hlsum : lit.data.sum ≤ 2 ^ 24 + 1 := by
+  have hlsum : lit.data.sum ≤ 2 ^ 25 := by
     rw [il.sum]; have := litsOf_length mb cmds 0 hrange; simp at this ⊢; omega
-  have hcsum : cmd.data.sum ≤ 2 ^ 24 + 1 := by
+  have hcsum : cmd.data.sum ≤ 2 ^ 25 := by
     rw [ic.sum]; simp; omega
   have hdlen : (distsOf cmds).length ≤ cmds.length := by
     simp only [distsOf, List.length_map]; exact List.length_filter_le _ _
-  have hdsum : dist.data.sum ≤ 2 ^ 24 + 1 := by
+  have hdsum : dist.data.sum ≤ 2 ^ 25 := by
     rw [id.sum]; simp; omega
   have hzero_of_len : ∀ (hh : Histo) (n : Nat) (items : List Nat), HistoInv hh n items → ∀ i, n ≤ i → hh.data.getD i 0 = 0 := by
     intro hh n items hi i hle
@@ -123,12 +99,19 @@ theorem trivial_core (wo : WordOracle) (window : Nat) (large : Bool) (ring : Byt
       simp only [cmdOK, Bool.and_eq_true, decide_eq_true_eq] at hk
       have := hk.1.1.2
       omega
-  obtain ⟨cb1, litC, e1, r1, s1⟩ := hcode lit.data 256 256 _ w1 litD litB (Or.inl ⟨il.len, rfl, rfl⟩) hlsum
-    (hzero_of_len lit 256 _ il) hb1
-  obtain ⟨cb2, cmdC, e2, r2, s2⟩ := hcode cmd.data 704 704 _ w2 cmdD cmdB (Or.inr (Or.inl ⟨ic.len, rfl, rfl⟩)) hcsum
-    (hzero_of_len cmd 704 _ ic) hb2
-  obtain ⟨cb3, distC, e3, r3, s3⟩ := hcode dist.data 140 (distAlphabetSize large 0 0) _ w3 distD distB
-    (Or.inr (Or.inr ⟨id.len, rfl, rfl⟩)) hdsum hdzero hb3
+  -- the three codes
+  obtain ⟨litD, litB, w1, hb1⟩ := build_total lit.data 256 256 (w ++ headerBits isLast mb.length ++ bitsOf 13 0)
+    (by rw [il.len]; omega) (by omega) hlsum (by omega) (by omega) (hzero_of_len lit 256 _ il)
+  obtain ⟨cb1, litC, e1, r1, s1⟩ := codeFacts_of_build lit.data 256 256 _ w1 litD litB (by rw [il.len]; omega)
+    (by omega) hlsum (by omega) (by omega) (hzero_of_len lit 256 _ il) a1 hb1
+  obtain ⟨cmdD, cmdB, w2, hb2⟩ := build_total cmd.data 704 704 w1
+    (by rw [ic.len]; omega) (by omega) hcsum (by omega) (by omega) (hzero_of_len cmd 704 _ ic)
+  obtain ⟨cb2, cmdC, e2, r2, s2⟩ := codeFacts_of_build cmd.data 704 704 _ w2 cmdD cmdB (by rw [ic.len]; omega)
+    (by omega) hcsum (by omega) (by omega) (hzero_of_len cmd 704 _ ic) a2 hb2
+  obtain ⟨distD, distB, w3, hb3⟩ := build_total dist.data 140 (distAlphabetSize large 0 0) w2
+    (by rw [id.len]; omega) (by omega) hdsum a4 hA140 hdzero
+  obtain ⟨cb3, distC, e3, r3, s3⟩ := codeFacts_of_build dist.data 140 (distAlphabetSize large 0 0) _ w3 distD distB
+    (by rw [id.len]; omega) (by omega) hdsum a4 hA140 hdzero a3 hb3
   -- the command loop
   obtain ⟨db, fin, hsd, hdec, hfin, hrd⟩ := storeData_sim wo window 0 0 (distAlphabetSize large 0 0) ring mask start mb
     litD litB cmdD cmdB distD distB litC cmdC distC hR cmds ⟨hist, dc, 0⟩ w3 hlock
@@ -143,17 +126,32 @@ theorem trivial_core (wo : WordOracle) (window : Nat) (large : Bool) (ring : Byt
         have := hk.1.1.2
         omega)
       (hist_mem dist 544 _ id _ (by simpa using hdmem c hc h0 h128)))
-  have hrd := hrd ((if isLast then List.replicate ((8 - (w3 ++ db).length % 8) % 8) false else []) ++ rest)
-    (mb.length + 1) (by omega)
   simp only at hsd hrd
   rw [posOf_zero start hst] at hsd
-  rw [hsd, Out.bind_ok] at h
-  injection h with h
+  have hconst : BROTLI_NUM_LITERAL_SYMBOLS = 256 ∧ BROTLI_NUM_COMMAND_SYMBOLS = 704 ∧
+      BROTLI_NUM_HISTOGRAM_DISTANCE_SYMBOLS = 544 ∧ MAX_SIMPLE_DISTANCE_ALPHABET_SIZE = 140 := by decide
+  obtain ⟨c1, c2, c3, c4⟩ := hconst
+  have hw3 : w3 ++ db = w ++ (headerBits isLast mb.length ++ (bitsOf 13 0 ++ (cb1 ++ (cb2 ++ (cb3 ++ db))))) := by
+    rw [e3, e2, e1]; simp [List.append_assoc]
   refine ⟨headerBits isLast mb.length ++ (bitsOf 13 0 ++ (cb1 ++ (cb2 ++ (cb3 ++ (db ++
     (if isLast then List.replicate ((8 - (w3 ++ db).length % 8) % 8) false else [])))))), fin, ?_, hdec, hfin, ?_⟩
-  · rw [← h, e3, e2, e1]
-    cases isLast <;> simp [jumpToByteBoundary, List.append_assoc]
-  · unfold readMetaBlockFull
+  · unfold storeMetaBlockTrivial
+    rw [hIP, Out.bind_ok, storeHeader_ok isLast mb.length w h1 h2, Out.bind_ok, c1, c2, c3, c4, hb, Out.bind_ok]
+    simp only
+    rw [BV.Header.writeBits_ok 13 0 _ (by decide) (by decide), Out.bind_ok, hb1, Out.bind_ok]
+    simp only
+    rw [hb2, Out.bind_ok]
+    simp only
+    rw [hb3, Out.bind_ok]
+    simp only
+    rw [hsd, Out.bind_ok]
+    cases isLast
+    · simp only [Bool.false_eq_true, if_false, List.append_nil]; rw [hw3]
+    · simp only [if_true, jumpToByteBoundary]; rw [hw3]; simp [List.append_assoc]
+  · intro rest
+    have hrd := hrd ((if isLast then List.replicate ((8 - (w3 ++ db).length % 8) % 8) false else []) ++ rest)
+      (mb.length + 1) (by omega)
+    unfold readMetaBlockFull
     simp only [List.append_assoc]
     rw [readHeader_ok isLast mb.length w.length _ h1 h2]
     simp only
@@ -162,15 +160,15 @@ theorem trivial_core (wo : WordOracle) (window : Nat) (large : Bool) (ring : Byt
     have hpos : ∀ PR : List Bool, w.length + (headerBits isLast mb.length).length +
         ((bitsOf 13 0 ++ (cb1 ++ (cb2 ++ (cb3 ++ (db ++ PR))))).length - PR.length) = (w3 ++ db).length := by
       intro PR
-      rw [e3, e2, e1]
+      rw [hw3]
       simp only [List.length_append]
       omega
     rw [hpos]
-    rw [← h]
     cases isLast
-    · simp
+    · simp [hw3, List.append_assoc]
     · simp only [if_true]
       rw [skipPad_pad]
-      simp [jump_length]
+      simp [hw3, List.append_assoc]
+      omega
 
 end BV.MetaBlock
